@@ -171,6 +171,9 @@ def run(ctx):
     ctx.assumptions += ["NOT decided: equivalence of the re-parsed interface with the truth; idempotence of black (value level)"]
     visitor_rule(ctx, index)
     _cmp_rule(ctx, index)
+    from .c13 import _once
+
+    _once(ctx, index)
     # ---------------------------------------------------------------- gate
     cf = index.func("cdd.shared.conformance._conform_filename")
     facts_at = {}
